@@ -103,6 +103,29 @@ var synthetic = map[string]string{
 	"syn-dup.txt":     "software license terms",
 }
 
+// synText: a deterministic text of n words (vocabulary of 700 made-up words, fixed linear
+// congruential order) that mentions the common license words: a license bigger than any shipped one
+// (GPL-3.0 has about 5 600 words; its .hash entry is the largest entry of the real archive).
+func synText(n int) string {
+	var sb strings.Builder
+	sb.WriteString("this software license has terms for the work")
+	x := uint32(12345)
+	for i := 0; i < n; i++ {
+		x = x*1664525 + 1013904223
+		k := (x >> 8) % 700
+		sb.WriteByte(' ')
+		sb.WriteString("w" + string(rune('a'+k%26)) + string(rune('a'+(k/26)%26)) + "o" + string(rune('a'+k/676)))
+		if i%12 == 11 {
+			sb.WriteByte('\n')
+		}
+	}
+	return sb.String()
+}
+
+func init() {
+	synthetic["syn-large.txt"] = synText(9000)
+}
+
 var (
 	readOnce sync.Once
 	origRead func(string) ([]byte, error)
@@ -186,7 +209,7 @@ func c15Archive(c *vrep.Ctx) {
 			}
 		}
 	}
-	c.R.Rule = fmt.Sprintf("archive round trip, mode %s: %d file sets (every shipped license alone / all ordered pairs (and triples) of an 8-file pool incl. .header files / synthetic files served through ReadLicenseFile: empty, one word, punctuation only, END OF TERMS trailer, duplicate text); ArchiveLicenses -> New(ArchiveBytes): loads without error, contains exactly the file names minus .txt, and the archive-loaded string classifier answers NearestMatch and MultipleMatch on a query menu (each member, edited member, concatenation, unrelated text) exactly like a classifier built with AddValue from the same normalised texts; non-trivial = distinct (file set, query) comparisons", mode, len(sets))
+	c.R.Rule = fmt.Sprintf("archive round trip, mode %s: %d file sets (every shipped license alone / all ordered pairs (and triples) of an 8-file pool incl. .header files / synthetic files served through ReadLicenseFile: empty, one word, punctuation only, END OF TERMS trailer, duplicate text, a 9 000-word text larger than any shipped license); ArchiveLicenses -> New(ArchiveBytes): loads without error, contains exactly the file names minus .txt, and the archive-loaded string classifier answers NearestMatch and MultipleMatch on a query menu (each member, edited member, concatenation, unrelated text) exactly like a classifier built with AddValue from the same normalised texts; non-trivial = distinct (file set, query) comparisons", mode, len(sets))
 	c.Bound("file_sets", len(sets))
 	body := func(r *vx.Run) {
 		si := r.Choose(len(sets), "set")
@@ -659,12 +682,28 @@ func c14LicenseSched(c *vrep.Ctx) {
 		func() string { return fmtMatches(l.MultipleMatch(mit, false)) },
 		func() string { m := l.NearestMatch(isc); return fmt.Sprintf("%s %v", m.Name, m.Confidence) },
 	}
+	if c.ParamInt("scenario", 0) == 1 {
+		// texts that pass the common-word gate through DIFFERENT words, neither of them the first of
+		// the list (the gate and everything else the License type shares between calls)
+		near := func(text string) func() string {
+			return func() string {
+				m := l.NearestMatch(text)
+				if m == nil {
+					return "nil"
+				}
+				return fmt.Sprintf("%s %v", m.Name, m.Confidence)
+			}
+		}
+		t1 := "permission to use copy modify and distribute under these terms is hereby granted zqa zqb"
+		t2 := "the above notice shall be included in all copies of this work zqc zqd"
+		ops = []func() string{near(t1), near(t2), func() string { return fmtMatches(l.MultipleMatch(t1+"\n"+t2, true)) }}
+	}
 	want := make([]string, len(ops))
 	for i, op := range ops {
 		i, op := i, op
 		vsync.RunDefault(func() { want[i] = op() })
 	}
-	c.R.Rule = fmt.Sprintf("controlled scheduler: MultipleMatch(MIT text) || NearestMatch(ISC text) on one licenseclassifier.License built from a 3-license archive (precomputed search sets); every interleaving of the callers and the library's worker goroutines within delay bound %d; no race on watched locations, no deadlock/panic, each call returns its solo result", budget)
+	c.R.Rule = fmt.Sprintf("controlled scheduler: MultipleMatch(MIT text) || NearestMatch(ISC text) (scenario 1: three calls on short texts that pass the common-word gate through different words) on one licenseclassifier.License built from a 3-license archive (precomputed search sets); every interleaving of the callers and the library's worker goroutines within delay bound %d; no race on watched locations, no deadlock/panic, each call returns its solo result", budget)
 	c.Bound("delay_bound", budget)
 	body := func(r *vx.Run) {
 		s := vsync.New(r, vsync.Delay)
